@@ -303,13 +303,19 @@ theorem rinv_carry {cfg : Cfg} {ws : WLog} {x : Reader} (h : RInv cfg ws x) :
     · exact h
     · rename_i f w hw
       have hok : FrameOK cfg x f := h.frames_ok f (by rw [hw]; simp)
-      rw [demux_ok cfg x f hok]
+      simp only [demux_ok cfg x f hok]
+      have hsub : ∀ g, g ∈ w ++ x.queue → g ∈ x.wire ++ x.queue := by
+        intro g hg
+        rw [hw]
+        rcases List.mem_append.mp hg with hg | hg
+        · exact List.mem_append_left _ (List.mem_cons_of_mem _ hg)
+        · exact List.mem_append_right _ hg
       refine { h with frames_ok := ?_, frames_acc := ?_, tcp_flow := ?_ }
       · intro g hg
-        obtain ⟨h1, h2, h3⟩ := h.frames_ok g (by rw [hw]; simp at hg ⊢; tauto)
+        obtain ⟨h1, h2, h3⟩ := h.frames_ok g (hsub g hg)
         exact ⟨h1, h2, h3⟩
       · intro g hg
-        exact h.frames_acc g (by rw [hw]; simp at hg ⊢; tauto)
+        exact h.frames_acc g (hsub g hg)
       · intro _
         have := h.tcp_flow hu
         simp only [live, flight] at this ⊢
